@@ -1,4 +1,5 @@
 import OlVerif.Lower.Stmt
+import OlVerif.Order.Proof
 namespace OlVerif.C01
 
 /-- the arguments of a chain of calls `f(a0)(a1)...(an)`, in evaluation order -/
@@ -21,5 +22,23 @@ theorem chain_call_keeps_all (e : Expr) (es : List Expr) :
 
 /-- the list wrapper is the list display of exactly the statement expressions -/
 theorem list_keeps_all (es : List Expr) : listWrapper es = .list es := rfl
+
+
+/-- the same in the evaluation-order model (M-ORDER): whichever wrapper is configured, evaluating the
+    one expression evaluates the statement expressions in order, each once (for every oracle) -/
+theorem wrapper_evaluates_in_order (ρ : Expr → Bool) (cfg : Cfg) (es : List Expr) :
+    tr ρ (wrapExprs cfg es) = trL ρ es :=
+  tr_wrapExprs ρ cfg es
+
+/-- **Straight-line programs keep their observable effects, in order.**  For a module made of
+    assignments (any chain of targets, any nesting of patterns), annotated and augmented assignments,
+    expression statements and function definitions whose subexpressions are effectful probes, the
+    converted expression performs every effect of the program exactly once and in the order the
+    script performs them (C07.program_order); control flow around such statements is C05's
+    `lower_correct_module` / `lower_correct_function`. -/
+theorem straight_line_effects (ρ : Expr → Bool) (cfg : Cfg) (root : SymScope) (ps : List PStmt)
+    (hok : ∀ p ∈ ps, p.ok) (e : Expr) (h : lowerFull cfg root (ps.map PStmt.toStmt) = .ok e) :
+    tr ρ e = PStmt.orders ps :=
+  program_order ρ cfg root ps hok e h
 
 end OlVerif.C01
